@@ -1063,15 +1063,14 @@ fiSIntLength(FiSInt i)
 FiSInt
 fiSIntTimesMod(FiSInt a,FiSInt  b,FiSInt m)
 {
-	/*!! Not yet implemented */
-	return 0;
+	return (a * b) % m;
 }
 
 FiSInt
 fiSIntTimesModInv(FiSInt a,FiSInt  b,FiSInt  m,FiDFlo  mi)
 {
-	/*!! Not yet implemented */
-	return 0;
+	/* mi (a precomputed 1/m) is only a speed hint. */
+	return (a * b) % m;
 }
 
 /*****************************************************************************
